@@ -76,6 +76,7 @@ class Obligation:
     def __init__(self, name, kind, func, hyps, goal, lineno=None, tags=(), note=""):
         self.name, self.kind, self.func, self.hyps, self.goal = name, kind, func, list(hyps), goal
         self.lineno, self.tags, self.note = lineno, tuple(tags), note
+        self.trivial = False
 
 
 class ModV:
@@ -304,7 +305,13 @@ class Ctx:
         self.names_seen[base] = k + 1
         name = base if k == 0 else "%s#%d" % (base, k)
         g = z(goal) if not isinstance(goal, z3.ExprRef) else goal
-        self.obligations.append(Obligation(name, kind, self.cur_func, st.pc, g, ln, tags, note))
+        gid = g.get_id()
+        ob = Obligation(name, kind, self.cur_func, st.pc, g, ln, tags, note)
+        for h in st.pc:
+            if isinstance(h, z3.ExprRef) and h.get_id() == gid:
+                ob.trivial = True        # the goal is literally one of the hypotheses: discharged without a solver call
+                break
+        self.obligations.append(ob)
 
 
 SAFETY_TAG = ("C16",)
@@ -339,6 +346,8 @@ class Interp:
                 return v.val
             return v
         if rec.lazy:
+            if self.ctx.registry.lookup(self.ctx.relpath, "%s.%s" % (rec.cls, attr)) is not None:
+                return FuncV("method", attr, ref)
             v = self.lazy_field(st, ref, rec, attr)
             return v
         self.ctx.oblige("attr_defined", False, st, node, attr, SAFETY_TAG)
@@ -458,6 +467,8 @@ class Interp:
             return FuncV("builtin", n)
         if n in ("np", "numpy"):
             return ModV("np")
+        if n == "time":
+            return ModV("time")
         if n in ("pd", "pandas"):
             return ModV("pd")
         if st.spec:
@@ -628,6 +639,13 @@ class Interp:
             for i in range(n - 2, -1, -1):
                 r = ite(compare("==", idx, i), base.items[i], r)
             return r
+        if isinstance(base, RangeV):
+            idx = self.ev(sl, st)
+            if idx == -1:
+                if not st.spec:
+                    self.ctx.oblige("index", compare(">", base.hi, base.lo), st, node, "range", SAFETY_TAG, note="IndexError: range object index out of range")
+                return arith("-", base.hi, 1)
+            raise ToolLimit("range subscript %r" % (idx,))
         if isinstance(base, IdxSetV):
             idx = self.ev(sl, st)
             if idx == 0:
@@ -1194,11 +1212,8 @@ def _lazy_init(rec, f, states, oid):
         return z3.Int(name)
     if ty == "Bool":
         return z3.Bool(name)
-    # reference-typed lazy fields: all branches that touched it hold the same Ref (named oid)
-    for s in states:
-        r = s.heap.get(oid)
-        if r is not None and f in r.fields and isinstance(r.fields[f], Ref):
-            return r.fields[f]
+    # reference-typed lazy field touched (possibly re-bound) in some branch only: the untouched branches still denote the INITIAL
+    # object, which this function cannot name -> do not merge these states
     raise _NoMerge()
 
 
